@@ -8,8 +8,9 @@ CONSTANTS
   MaxErrs = 1
   MaxInflight = 3
   Reorder = TRUE
+  SlowSub = FALSE
 INIT Init
 NEXT Next
 VIEW view
-INVARIANTS EveryHeadChangeAnnounced NoSpuriousBlockEvent CurrentBlockIsLastObserved ExactlyOnceAtFirstDelivered StrictlyIncreasing NoDuplicates
+INVARIANTS NothingLostOrInvented EveryHeadChangeAnnounced NoSpuriousBlockEvent CurrentBlockIsLastObserved ExactlyOnceAtFirstDelivered StrictlyIncreasing NoDuplicates
 CHECK_DEADLOCK FALSE
